@@ -3,7 +3,7 @@
 # usage: build.sh <output-binary> [instrument flags...]   exit 2 on any failure
 set -u
 export GOFLAGS=-mod=mod GOPROXY=off GOSUMDB=off GOTOOLCHAIN=local CGO_ENABLED=0
-V=/verif
+V=$(cd "$(dirname "$0")" && pwd)
 OUT=$(realpath -m "$1"); shift
 REPO=${VERIF_REPO:-/repo}
 if [ ! -x $V/bin/instrument ]; then
